@@ -276,6 +276,8 @@ class Engine:
                 if 'int' == fe.qual(e) or fe.qual(e) in ('long', 'short', 'char'):
                     st.signed.add(nm)
                 return Poly.atom(nm)
+            if nm in getattr(self, 'free_locals', ()):
+                return Poly.atom('%' + nm)       # a fixed but unknown value (e.g. a detected processor count)
             a = '?%s' % nm
             return Poly.atom(a)
         if k == 'MemberExpr':
@@ -398,7 +400,7 @@ class Engine:
                 continue
             if 'reaches' in what and up_ok:
                 continue
-            w = find_witness(neg, facts, dom=self.dom, max_atoms=7, opaque=lambda a: a.startswith('?') or a.startswith('sizeof'),
+            w = find_witness(neg, facts, dom=self.dom, max_atoms=11, opaque=lambda a: a.startswith('?') or a.startswith('sizeof'),
                              order=None)
             if isinstance(w, dict):
                 return 'REFUTED', w, what
